@@ -71,7 +71,9 @@ func (e *Env) DrawC10(rt *rapid.T) C10Case {
 	maxReq := 24
 	switch c.Scenario {
 	case "queue-timeout":
-		c.MaxInvoke, c.NConns, c.Proto, maxReq = 1, 1, "tcp", 10
+		// one worker, one client socket (tcp or udp: the time a request waits in the pool's
+		// queue counts against its own timeout on both transports)
+		c.MaxInvoke, c.NConns, maxReq = 1, 1, 10
 	case "handle-timeout":
 		c.HandleTimeout, maxReq = handleTimeout, 8
 		if c.MaxInvoke == 1 {
